@@ -1,5 +1,5 @@
 PROP = {
-    "regen_files": ["GenGuards.v"],
+    "regen_files": ["GenGuards.v", "GenSigs.v"],
     "num": 11,
     "runs": [{"tag": "c11", "bin": "c11"}],
     "mismatch_is_failing": True,
